@@ -155,7 +155,7 @@ def main():
         }],
         "checks": checks,
         "not_applicable": [{"property_id": p, "reason": REASON_TODO} for p in ALL if p not in CHECKS],
-        "notes": "Technique family: runtime monitoring and sanitizers. Exit codes: 0 held (or only listed known findings), 1 violation with replay file, 2 inconclusive (never a VIOLATION line). Known findings: /verif/known_findings.txt.",
+        "notes": "Technique family: runtime monitoring and sanitizers. Thorough tiers of C01-C08 and C19 add Miri, AddressSanitizer and (C01-C07, C19) a coverage-guided libFuzzer layer whose crash oracle is the property's own monitor; C11 thorough adds ThreadSanitizer; C15 uses cachegrind. Exit codes: 0 held (or only listed known findings), 1 violation with replay file, 2 inconclusive (never a VIOLATION line). Known findings: /verif/known_findings.txt.",
     }
     with open("/verif/MANIFEST.json", "w") as f:
         json.dump(m, f, indent=1)
